@@ -821,10 +821,19 @@ def gen_c06(rng, tier):
                     cases.append(G.dcase(cid, "<", ">", src, cfg))
                     meta[cid] = {"stream": "probe", "expect": "ab" if rdy else src, "why": f"{name} {perm} targets={targets}"}
     docs = doc_cases(rng, 500 if tier == "quick" else 5000, "d")
+    # the command line given no target option: no removal-marker is removed, whatever its name
+    for j, name in enumerate(["vec![]", "<!-- <", "> -->", "time-limited", "removal-marker", "+00:00", "", "x"]):
+        src = f'a<!-- <removal-marker name="{name}"> -->x<!-- </removal-marker> -->b'
+        cases.append(kcase(f"kd{j}", "C", False, "S", "O", None, None, None, None, 0, G.NOW, None, [], None, src))
+        meta[f"kd{j}"] = {"stream": "cli-defaults", "expect_stdout": src}
+        cases.append(kcase(f"ke{j}", "C", False, "S", "O", None, None, None, None, 0, G.NOW, None, [name], None, src))
+        meta[f"ke{j}"] = {"stream": "cli-defaults", "expect_stdout": "ab"}
     return merge(corpus_cases(), (cases, meta), docs)
 
 
 def oracle_c06(line, m, impl, model):
+    if line.startswith("K "):
+        return oracle_c20(line, m, impl, model)
     if line.startswith("M "):
         return oracle_marker(line, m, impl, model)
     r = oracle_doc_expected(line, m, impl, model)
@@ -1129,11 +1138,201 @@ def gen_c19(rng, tier):
 
 
 # ------------------------------------------------------------------------------------------------
+# C20: the command-line binary
+
+TZS = ["UTC", "Asia/Tokyo", "America/Los_Angeles", None]
+
+
+def rfc3339(now, zone_min):
+    y, mo, d, h, mi, s = G.civil(now + zone_min * 60)
+    return f"{y:04d}-{mo:02d}-{d:02d}T{h:02d}:{mi:02d}:{s:02d}{G.offset_str(zone_min)}"
+
+
+def kcase(cid, mode, js, inr, outr, ds, de, tl, off, zone, now, rm, flags, cfg, src):
+    def o(x):
+        return "~" if x is None else G.hx(x)
+    fl = ",".join(G.hx(x) for x in flags) if flags else "."
+    return f"K {cid} {mode} {int(js)} {inr} {outr} {o(ds)} {o(de)} {o(tl)} {o(off)} {zone} {now} {o(rm)} {fl} {o(cfg)} {G.hx(src)}"
+
+
+def gen_c20(rng, tier):
+    cases, meta = [], {}
+    n = 350 if tier == "quick" else 4000
+    names = ["x", "y", "feature1", "vec![]", "", "X", "x y"]
+    for i in range(n):
+        use_default_delims = rng.random() < 0.4
+        ds, de = ("<!-- <", "> -->") if use_default_delims else rng.choice(G.DELIMS)
+        use_default_tags = rng.random() < 0.4
+        tl, rm = ("time-limited", "removal-marker") if use_default_tags else rng.choice(G.TAGNAMES[1:])
+        flags = rng.sample(names, rng.randint(0, 3)) if rng.random() < 0.7 else []
+        cfgfile = None
+        if rng.random() < 0.4:
+            ls = rng.sample(names, rng.randint(0, 3))
+            cfgfile = "".join(l + rng.choice(["\n", "\n", "\r\n"]) for l in ls)
+            if ls and rng.random() < 0.3:
+                cfgfile = cfgfile.rstrip("\r\n")
+        targets = tuple(flags) + tuple((cfgfile or "").replace("\r\n", "\n").split("\n")[:-1] if cfgfile and cfgfile.endswith("\n") else (cfgfile or "").replace("\r\n", "\n").split("\n") if cfgfile else ())
+        off = rng.choice([None, "+00:00", "+0900", "-05:30"])
+        cfg = G.Cfg(tl, rm, off or "+00:00", G.NOW, [t for t in targets if t] or ("zz",))
+        dg = G.DocGen(rng, ds, de, cfg, safe_text=True)
+        src = dg.document(G.ALL_KINDS, 0.3)
+        if rng.random() < 0.15:
+            src = src.replace('name="' + cfg.targets[0] + '"', 'name="vec![]"')
+        mode = rng.choice(["C", "C", "L", "A", "B"])
+        js = rng.random() < 0.5
+        inr = rng.choice(["F", "S"])
+        outr = rng.choice(["O", "W"] + (["I"] if inr == "F" else []))
+        zone = rng.choice([0, 540, -480, 330])
+        cid = f"c{i}"
+        cases.append(kcase(cid, mode, js, inr, outr, None if use_default_delims and rng.random() < 0.7 else ds,
+                           None if use_default_delims and rng.random() < 0.7 else de,
+                           None if use_default_tags and rng.random() < 0.7 else tl, off, zone, G.NOW,
+                           None if use_default_tags and rng.random() < 0.7 else rm, flags, cfgfile, src))
+        meta[cid] = {"stream": "cli"}
+    # the same document through every route / equivalent target spellings: results must coincide
+    k = 0
+    for i in range(60 if tier == "quick" else 600):
+        ds, de = rng.choice(G.DELIMS)
+        cfg = G.Cfg("tl", "rm", "+00:00", G.NOW, ("x", "y"))
+        src = G.DocGen(rng, ds, de, cfg).document(G.ALL_KINDS, 0.3)
+        mode, js = rng.choice(["C", "L", "A"]), rng.random() < 0.5
+        group = f"g{i}"
+        variants = [("F", "O", ["x", "y"], None), ("S", "O", ["x", "y"], None), ("F", "W", ["x", "y"], None), ("F", "I", ["y", "x"], None),
+                    ("S", "W", [], "x\ny\n"), ("F", "O", ["x"], "y"), ("F", "O", [], "y\r\nx\r\n"), ("S", "O", ["x", "y", "x"], "x\n")]
+        for (inr, outr, flags, cf) in variants:
+            cid = f"v{k}"
+            k += 1
+            cases.append(kcase(cid, mode, js, inr, outr, ds, de, "tl", "+00:00", rng.choice([0, 540, -480]), G.NOW, "rm", flags, cf, src))
+            meta[cid] = {"stream": "cli-equiv", "group": group}
+    # defaults contribute no targets: candidate names are the default strings printed by --help
+    for j, name in enumerate(["vec![]", "<!-- <", "> -->", "time-limited", "removal-marker", "+00:00", ""]):
+        src = f'a<!-- <removal-marker name="{name}"> -->x<!-- </removal-marker> -->b'
+        cases.append(kcase(f"d{j}", "C", False, "S", "O", None, None, None, None, 0, G.NOW, None, [], None, src))
+        meta[f"d{j}"] = {"stream": "cli-defaults", "expect_stdout": src}
+    return merge((cases, meta))
+
+
+def run_cli_cases(cases, work, tag):
+    """drives target/debug/chiritori; every case under all TZ values"""
+    binp, log = vlib.build_cli()
+    res = {}
+    if binp is None:
+        return {c.split(" ")[1]: {"cli": "BUILDFAIL"} for c in cases}
+    import concurrent.futures
+    import shutil
+    base = os.path.join(work, tag + ".cli")
+    shutil.rmtree(base, ignore_errors=True)
+    os.makedirs(base, exist_ok=True)
+    def one(line):
+        f = line.split(" ")
+        cid = f[1]
+        mode, js, inr, outr, ds, de, tl, off, zone, now, rm, flags, cfgf, src = f[2:16]
+        outs = []
+        for ti, tz in enumerate(TZS):
+            d = os.path.join(base, f"{cid}.{ti}")
+            os.makedirs(d, exist_ok=True)
+            inp, outp, cfgp = os.path.join(d, "IN"), os.path.join(d, "OUT"), os.path.join(d, "CFG")
+            srcb = unhex(src)
+            open(inp, "wb").write(srcb)
+            argv = [binp]
+            if inr == "F":
+                argv.append("--filename=" + inp)
+            if outr == "W":
+                argv.append("--output=" + outp)
+            elif outr == "I":
+                argv.append("--output=" + inp)
+            for opt, v in (("--delimiter-start", ds), ("--delimiter-end", de), ("--time-limited-tag-name", tl),
+                           ("--time-limited-time-offset", off), ("--removal-marker-tag-name", rm)):
+                if v != "~":
+                    argv.append(opt + "=" + unhex(v).decode("utf-8"))
+            argv.append("--time-limited-current=" + rfc3339(int(now), int(zone)))
+            if flags != ".":
+                for x in flags.split(","):
+                    argv.append("--removal-marker-target-name=" + unhex(x).decode("utf-8"))
+            if cfgf != "~":
+                open(cfgp, "wb").write(unhex(cfgf))
+                argv.append("--removal-marker-target-config=" + cfgp)
+            if mode in ("L", "B"):
+                argv.append("--list")
+            if mode in ("A", "B"):
+                argv.append("--list-all")
+            if js == "1":
+                argv.append("--list-json")
+            env = {k: v for k, v in os.environ.items() if k not in ("TZ", "LANG", "LC_ALL")}
+            if tz is not None:
+                env["TZ"] = tz
+            if ti == 1:
+                env["LANG"] = "ja_JP.UTF-8"
+                env["LC_ALL"] = "C"
+            p = subprocess.run(argv, input=(srcb if inr == "S" else b""), stdout=subprocess.PIPE, stderr=subprocess.PIPE, env=env, timeout=60)
+            if p.returncode not in (0, 1):
+                outs.append("CRASH")
+            else:
+                def hx(b):
+                    return b.hex() if b else "-"
+                fl = "~"
+                if outr == "W" and os.path.exists(outp):
+                    fl = "OUT:" + hx(open(outp, "rb").read())
+                elif outr == "I":
+                    fl = "IN:" + hx(open(inp, "rb").read())
+                outs.append(f"exit={p.returncode} stdout={hx(p.stdout)} file={fl}")
+            shutil.rmtree(d, ignore_errors=True)
+        r = {"cli": outs[0]}
+        if len(set(outs)) != 1:
+            r["tz_differs"] = "|".join(o[:200] for o in outs)
+        return cid, r
+    with concurrent.futures.ThreadPoolExecutor(max_workers=16) as ex:
+        for cid, r in ex.map(one, cases):
+            res[cid] = r
+    shutil.rmtree(base, ignore_errors=True)
+    return res
+
+
+def oracle_c20(line, m, impl, model):
+    c = impl.get("cli", "MISSING")
+    if c in ("CRASH", "MISSING", "BUILDFAIL"):
+        return f"the binary {c.lower()}"
+    if "tz_differs" in impl:
+        return "the result depends on TZ / locale: " + impl["tz_differs"][:300]
+    if "expect_stdout" in m:
+        got = re.search(r"stdout=(\S+)", c).group(1)
+        if unhex(got) != m["expect_stdout"].encode():
+            return f"with default options the output is {unhex(got)!r}: a default string acts as a removal target or changes behaviour"
+    return None
+
+
+def pair_check_c20(cases, meta, impl):
+    fails = []
+    groups = {}
+    by = {l.split(" ", 2)[1]: l for l in cases}
+    for cid, m in meta.items():
+        if isinstance(m, dict) and m.get("stream") == "cli-equiv":
+            groups.setdefault(m["group"], []).append(cid)
+    for g, ids in groups.items():
+        def payload(cid):
+            c = impl.get(cid, {}).get("cli", "")
+            mo = re.match(r"exit=(\d+) stdout=(\S+) file=(\S+)", c)
+            if not mo:
+                return c
+            return (mo.group(1), mo.group(2) if mo.group(3) == "~" else mo.group(3).split(":", 1)[1])
+        vals = {cid: payload(cid) for cid in ids}
+        if len(set(vals.values())) != 1:
+            a = ids[0]
+            b = [x for x in ids if vals[x] != vals[a]][0]
+            fails.append({"case": by[b], "other_case": by[a], "meta": meta[b],
+                          "why": "the same document and options give different bytes through different input/output routes or equivalent target spellings"})
+    return fails
+
+
+# ------------------------------------------------------------------------------------------------
 # differential run
 
 def differential(P, pid, cases, meta, harness, driver, tag, oracle_only=False):
     work = os.path.join(CACHE, "run", pid)
-    impl, rcs = vlib.run_sharded(harness, cases, work, tag + ".impl")
+    kcases = [c for c in cases if c.startswith("K ")]
+    impl, rcs = vlib.run_sharded(harness, [c for c in cases if not c.startswith("K ")], work, tag + ".impl")
+    if kcases:
+        impl.update(run_cli_cases(kcases, work, tag))
     crashed = [rc for rc in rcs if rc != 0]
     if P.get("post"):
         # multi-step properties (histories, metamorphic pairs) run follow-up cases
@@ -1410,7 +1609,7 @@ _P = {
     "C04": mk(lambda rng, t: gen_docs(rng, t, kinds=["pending_tl", "pending_rm", "skip", "unreg"], p_mut=0.5, safe=False),
               ["tok", "tag", "tree", "markers", "clean"], oracle_c04, "no-op identity", RULE_DOC, nontrivial_tok),
     "C05": mk(gen_c05, ["evalt", "clean"], oracle_c05, "expiry decision", "boundary grid (±2 s around the instant, offsets −12:00…+14:00 step 15 min, both spellings), every malformed class, lenient forms, random grid; all T cases count as non-trivial", nontrivial_tok),
-    "C06": mk(gen_c06, ["evalm", "markers", "clean", "tag"], oracle_c06, "marker and skip decision", "name/target pool products, attribute permutations, tag-name configurations, AST documents", nontrivial_tok),
+    "C06": mk(gen_c06, ["evalm", "markers", "clean", "tag", "cli"], oracle_c06, "marker and skip decision", "name/target pool products, attribute permutations, tag-name configurations, AST documents", nontrivial_tok),
     "C07": mk(gen_front, ["tok"], oracle_c07, "lossless partition", RULE_DOC, nontrivial_tok),
     "C08": mk(gen_front, ["tok"], oracle_c08, "leftmost-shortest recognition", RULE_DOC, nontrivial_tok),
     "C09": mk(gen_c09, ["tok", "tag", "clean"], oracle_c09, "tag grammar", "tags printed from the grammar (0-4 attributes, bare/single/double quoted, adversarial values, five separators, spaces around '='), opacity probes, mutated documents", nontrivial_tok),
@@ -1428,4 +1627,6 @@ _P = {
 }
 
 PROPS.update(_P)
+PROPS["C20"] = mk(gen_c20, ["cli"], oracle_c20, "CLI wrapper", "AST documents x option combinations (input route, output route incl. --output = input file, mode, explicit/default delimiters, tag names, offset, current time spelled in several zones, targets via flags / file / both), each run under TZ in {UTC, Asia/Tokyo, America/Los_Angeles, unset}; equivalence groups of the same document through every route; default-string probes", nontrivial_tok)
+PROPS["C20"]["pair_check"] = pair_check_c20
 PROPS["C18"]["pair_check"] = pair_check_c18
